@@ -426,6 +426,9 @@ func checkC05(job *Job, res *Result) {
 		}
 	}
 	res.Bounds["configurations"] = len(cfgs)
+	if job.Shard == 0 && only == nil {
+		c05PolarCircle(job, res)
+	}
 }
 
 func isSubList(sub, full []string) bool {
@@ -436,4 +439,64 @@ func isSubList(sub, full []string) bool {
 		}
 	}
 	return i == len(sub)
+}
+
+// c05PolarCircle: a circular fence at high latitude.  The circle reaches further
+// east and west than the bounding box of the polygon that stands for it; an
+// object entering there must be reported to a channel and a webhook (which are
+// selected through an index of fence rectangles) exactly as to a live fence.
+func c05PolarCircle(job *Job, res *Result) {
+	ep := newFakeEndpoint(nil)
+	defer ep.Close()
+	steps := []struct {
+		lat, lon string
+		want     string
+	}{
+		// DETECT enter,exit: the fence is not among the "outside" detectors, which are always consulted
+		{"70", "60", ""},
+		{"79.6", "25.5", "set/enter/a"}, // inside the circle, east of the polygon's box
+		{"79.6", "60", "set/exit/a"},
+		{"79.6", "-25.5", "set/enter/a"}, // the same on the west side
+		{"79.7", "-25.4", ""},
+		{"60", "-25.5", "set/exit/a"},
+	}
+	x := runExec(job, freezeAllBut("manager"), func(x *Exec) {
+		in := x.Start("L", x.dir+"/L", 9001, nil)
+		c := x.Dial(in.Addr)
+		fence := w("NEARBY pk FENCE DETECT enter,exit POINT 80 0 500000")
+		c.Do(append([]string{"SETCHAN", "pch"}, fence...)...)
+		c.Do(append([]string{"SETHOOK", "phk", ep.URL()}, fence...)...)
+		sub := x.Dial(in.Addr)
+		sub.Send(respCmd("SUBSCRIBE", "pch"))
+		live := x.Dial(in.Addr)
+		live.Send(respCmd(fence...))
+		vsched.Quiesce()
+		recvPayloads(sub)
+		recvPayloads(live)
+		seen := 0
+		for si, st := range steps {
+			c.Do("SET", "pk", "a", "POINT", st.lat, st.lon)
+			vsched.Quiesce()
+			nw := len(strings.Fields(st.want))
+			vsched.WaitUntilOr(func() bool { return len(ep.OK())-seen >= nw }, int64(2*stdtime.Second))
+			vsched.Quiesce()
+			okb := ep.OK()
+			got := map[string][]string{"channel": recvPayloads(sub), "live": recvPayloads(live), "webhook": okb[seen:]}
+			seen = len(okb)
+			for _, recv := range []string{"channel", "webhook", "live"} {
+				var gs []string
+				for _, raw := range got[recv] {
+					gs = append(gs, c05Parse(raw).String())
+				}
+				res.Evaluations++
+				if strings.Join(gs, " ") != st.want {
+					res.Violate("C05/polar-circle:"+recv, fmt.Sprintf("step %d SET pk a POINT %s %s: %s received [%s], expected [%s]  [fence NEARBY DETECT enter,exit POINT 80 0 500000]", si, st.lat, st.lon, recv, strings.Join(gs, " "), st.want), map[string]any{"polar": si})
+				}
+			}
+			res.DistinctS(fmt.Sprint("polar", si))
+		}
+	})
+	if x.Err != "" || len(x.Crashes) > 0 {
+		res.Violate("C05/polar-circle:hang-or-crash", fmt.Sprint(x.Err, x.Crashes), nil)
+	}
 }
